@@ -62,8 +62,39 @@ pub mod bitlem {
     pub broadcast proof fn lemma_or_mono_r(a: i32, b: i32, f: i32)
         requires b & f == f ensures #[trigger] ((a | b) & f) == f
     { assert(b & f == f ==> ((a | b) & f) == f) by (bit_vector); }
+    /// `(S_IFxxx | (mode & !S_IFMT))` has exactly the type bits S_IFxxx and the permission bits of mode
+    pub broadcast proof fn lemma_fmt_or_type(f: u32, m: u32)
+        requires f & super::libc::S_IFMT == f
+        ensures #[trigger] ((f | (m & !super::libc::S_IFMT)) & super::libc::S_IFMT) == f
+    {
+        let k = super::libc::S_IFMT;
+        assert(f & k == f ==> ((f | (m & !k)) & k) == f) by (bit_vector);
+    }
+    pub broadcast proof fn lemma_fmt_or_perm(f: u32, m: u32)
+        requires f & super::libc::S_IFMT == f
+        ensures #[trigger] ((f | (m & !super::libc::S_IFMT)) & !super::libc::S_IFMT) == m & !super::libc::S_IFMT
+    {
+        let k = super::libc::S_IFMT;
+        assert(f & k == f ==> ((f | (m & !k)) & !k) == m & !k) by (bit_vector);
+    }
+    pub proof fn lemma_ifmt_consts()
+        ensures
+            super::libc::S_IFREG & super::libc::S_IFMT == super::libc::S_IFREG,
+            super::libc::S_IFIFO & super::libc::S_IFMT == super::libc::S_IFIFO,
+            super::libc::S_IFCHR & super::libc::S_IFMT == super::libc::S_IFCHR,
+            super::libc::S_IFBLK & super::libc::S_IFMT == super::libc::S_IFBLK,
+    {
+        assert(0o100000u32 & 0o170000u32 == 0o100000u32) by (bit_vector);
+        assert(0o010000u32 & 0o170000u32 == 0o010000u32) by (bit_vector);
+        assert(0o020000u32 & 0o170000u32 == 0o020000u32) by (bit_vector);
+        assert(0o060000u32 & 0o170000u32 == 0o060000u32) by (bit_vector);
+    }
+    pub proof fn lemma_has_mono(k: i32, f: i32, g: i32)
+        requires k & f == f, f & g == g
+        ensures k & g == g
+    { assert((k & f == f && f & g == g) ==> k & g == g) by (bit_vector); }
 }
-//@broadcast bitlem::lemma_or_contains_r bitlem::lemma_or_contains_l bitlem::lemma_or_mono_l bitlem::lemma_or_mono_r
+//@broadcast bitlem::lemma_fmt_or_type bitlem::lemma_fmt_or_perm bitlem::lemma_or_contains_r bitlem::lemma_or_contains_l bitlem::lemma_or_mono_l bitlem::lemma_or_mono_r
 
 /// `bits` has every bit of `f`
 pub open spec fn has(bits: i32, f: i32) -> bool { bits & f == f }
